@@ -615,3 +615,44 @@ func FuzzVP_C05_Decode(f *testing.F) {
 		}
 	})
 }
+
+// (b1') every prefix: a generated valid encoding is cut at EVERY offset (for long messages:
+// every offset of the first 600 bytes, the last 64 and a generated sample in between) and
+// each prefix goes through the totality / fix-point / allocation oracle. A bounds check that
+// is off by one fails at exactly one offset of one message shape; a random cut rarely lands there.
+func TestVP_C05_Prefixes(t *testing.T) {
+	st := vp.NewStats("C05", "prefixes", "valid encodings of every message kind cut at every offset (long messages: first 600, last 64 and 200 sampled offsets); non-trivial = at least one proper prefix is accepted by the decoder or the message has a variable-length section")
+	defer st.Flush()
+	rapid.Check(t, func(t *rapid.T) {
+		c := &vpCodecs[rapid.IntRange(0, len(vpCodecs)-1).Draw(t, "kind")]
+		b := append([]byte(nil), c.enc(c.gen(t))...)
+		var offs []int
+		if len(b) <= 1200 {
+			for i := 0; i < len(b); i++ {
+				offs = append(offs, i)
+			}
+		} else {
+			for i := 0; i < 600; i++ {
+				offs = append(offs, i)
+			}
+			for i := len(b) - 64; i < len(b); i++ {
+				offs = append(offs, i)
+			}
+			for k := 0; k < 200; k++ {
+				offs = append(offs, rapid.IntRange(600, len(b)-65).Draw(t, "mid"))
+			}
+		}
+		accepted := 0
+		for _, i := range offs {
+			acc, err := vpTotalCheck(c, b[:i])
+			if acc {
+				accepted++
+			}
+			if err != nil {
+				t.Fatalf("VPFAIL C05 %s cut at offset %d of %d: %v", c.name, i, len(b), err)
+			}
+		}
+		st.Count("prefixes-decoded", len(offs))
+		st.Case(fmt.Sprintf("%s len=%d prefixes=%d accepted=%d", c.name, len(b), len(offs), accepted), accepted > 0 || len(b) > 40, c.name)
+	})
+}
